@@ -215,7 +215,19 @@ class ScoOperationsRegistry(AbstractScoOperationsRegistry):
     ) -> InvocationState:
         """Handle operation immediately or delayed in worker thread, depending on operation.delayed_processing."""
         if operation.delayed_processing:
-            self._worker.enqueue_operation(operation, request, operation_request, transaction_id)
+            try:
+                self._worker.enqueue_operation(operation, request, operation_request, transaction_id)
+            except queue.Full:
+                self._logger.error('operation queue is full, operation "%s" is rejected', operation.handle)
+                self._set_service.notify_operation(
+                    operation,
+                    transaction_id,
+                    InvocationState.FAILED,
+                    self._mdib.mdib_version_group,
+                    error=InvocationError.OTHER,
+                    error_message='operation queue is full',
+                )
+                return InvocationState.FAILED
             return InvocationState.WAIT
         try:
             execute_result = operation.execute_operation(request, operation_request)
@@ -242,7 +254,7 @@ class ScoOperationsRegistry(AbstractScoOperationsRegistry):
             )
             return InvocationState.FAILED
 
-        return InvocationState.FINISHED
+        return execute_result.invocation_state
 
     def start_worker(self):
         """Start worker thread."""
